@@ -66,8 +66,12 @@ var cast(var self, var type) {
   if (type_of(self) is type) {
     return self;
   } else {
+    /* types are reported by name: a Type object handed to throw as a bare
+    ** argument is `Terminal` for objects of that type, which cuts the
+    ** argument tuple short and turns this error into a FormatError */
     return throw(ValueError,
-      "cast expected type %s, got type %s", type_of(self), type);
+      "cast expected type %s, got type %s", 
+      $S(c_str(type_of(self))), $S(c_str(type)));
   }
   
 }
@@ -361,7 +365,7 @@ static var Type_Method_At_Offset(
   if (inst is NULL) {
     return throw(ClassError,
       "Type '%s' does not implement class '%s'",
-      self,  cls);
+      $S(Type_Builtin_Name(self)), $S(Type_Builtin_Name(cls)));
   }
 #endif
   
@@ -371,7 +375,8 @@ static var Type_Method_At_Offset(
   if (meth is NULL) {
     return throw(ClassError,
       "Type '%s' implements class '%s' but not the method '%s' required",
-      self,  cls, $(String, (char*)method_name));  
+      $S(Type_Builtin_Name(self)), $S(Type_Builtin_Name(cls)), 
+      $(String, (char*)method_name));  
   }
 #endif
   
